@@ -80,9 +80,14 @@ fn scen(spec: RunSpec) -> ScenFut {
         sim::set_cfg(|c| c.enabled = false);
         let mut gen = RowGen::new();
         let mut original: BTreeMap<i64, i64> = BTreeMap::new(); // id -> ts
+        let mut original_rows: Vec<String> = Vec::new(); // canonical row strings as stored (floats bitwise)
         let mut old_paths: Vec<String> = Vec::new();
+        // schema: the narrow one, or the wide one with a label and i64 / f64 / u64 value columns
+        let schema_variant = if sim::w_bool(50) { 0 } else { 4 };
         for k in 0..n_chunks {
             let nrows = sim::w_range(1, 4) as usize;
+            // a quarter of the chunks carry extreme values (both zeros, NaN, infinities, NULL, integer extremes)
+            let extreme = sim::w(4) == 3;
             let rows: Vec<Row> = (0..nrows)
                 .map(|_| {
                     let ts = match sim::w(5) {
@@ -92,13 +97,14 @@ fn scen(spec: RunSpec) -> ScenFut {
                         3 => min_time + sim::w(1000) as i64 * SEC,
                         _ => split_ts + sim::w(1000) as i64 * SEC,
                     };
-                    gen.row(ts, false)
+                    gen.row(ts, extreme)
                 })
                 .collect();
             for r in &rows {
                 original.insert(r.id, r.ts);
             }
-            let bytes = pw.write_batch(&batch(0, &rows)).unwrap();
+            let bytes = pw.write_batch(&batch(schema_variant, &rows)).unwrap();
+            original_rows.extend(decode_parquet(bytes.clone()).expect("old-shard chunk decodes").iter().flat_map(row_strings));
             let path = format!("default/data/shard={OLD}/chunk_{k}.parquet");
             inner.put(&Path::from(path.clone()), PutPayload::from(bytes.clone())).await.unwrap();
             let (mn, mx) = (rows.iter().map(|r| r.ts).min().unwrap(), rows.iter().map(|r| r.ts).max().unwrap());
@@ -116,6 +122,10 @@ fn scen(spec: RunSpec) -> ScenFut {
         };
         setup_meta.update_shard_metadata(OLD, &old_meta, 0).await.unwrap();
         sim::set_cfg(|c| c.enabled = true);
+        // a quarter of the workloads hand every hash table built from here on an unlucky-but-legal key
+        if crate::core::run::mix2(spec.seed, 5) % 4 == 0 {
+            sim::set_adversarial_hash(true);
+        }
         // fault configuration
         let (nf, nc) = (sim::w_range(1, 2), sim::w_range(0, 2));
         sim::set_cfg(|c| {
@@ -320,6 +330,7 @@ fn scen(spec: RunSpec) -> ScenFut {
             }
             // rows
             let mut got: BTreeMap<i64, u32> = BTreeMap::new();
+            let mut got_rows: Vec<String> = Vec::new();
             for (m, lower) in [(a, true), (b, false)] {
                 let chunks = ometa.get_chunks_for_shard(&m.shard_id).await.unwrap_or_default();
                 let mut seen_paths = BTreeSet::new();
@@ -330,6 +341,7 @@ fn scen(spec: RunSpec) -> ScenFut {
                     match read_chunk(&inner, &c.chunk_path).await {
                         Ok(bs) => {
                             for bt in &bs {
+                                got_rows.extend(row_strings(bt));
                                 for (id, ts) in ids_of(bt).into_iter().zip(ts_of(bt)) {
                                     *got.entry(id).or_insert(0) += 1;
                                     if lower && ts >= split_ts {
@@ -356,6 +368,19 @@ fn scen(spec: RunSpec) -> ScenFut {
             }
             if !foreign.is_empty() {
                 sim::violation("C14/rows/foreign", format!("{} rows in the new shards never were in the old shard", foreign.len()));
+            }
+            // the rows of the new shards are the old shard's rows value for value (floats bit for bit)
+            if missing.is_empty() && dup.is_empty() && foreign.is_empty() {
+                let (want_m, got_m) = (multiset(original_rows.clone()), multiset(got_rows));
+                if want_m != got_m {
+                    let (m, e) = diff_multiset(&want_m, &got_m);
+                    let norm0 = |v: &String| v.replace("f:8000000000000000", "f:0000000000000000");
+                    let zero_only = multiset(m.iter().map(norm0)) == multiset(e.iter().map(norm0));
+                    sim::violation(
+                        if zero_only { "C14/rows/content-altered/sign-of-zero" } else { "C14/rows/content-altered" },
+                        format!("every old-shard row id is in exactly one new shard, but {} rows differ in content: old shard e.g. {:?}, new shards e.g. {:?}", m.len(), m.iter().take(2).collect::<Vec<_>>(), e.iter().take(2).collect::<Vec<_>>()),
+                    );
+                }
             }
         }
         early_delete_monitor(&old_paths, use_local);
